@@ -10,6 +10,7 @@ type pathState struct {
 	Path  []*ssa.BasicBlock
 	Calls []ssa.CallInstruction // calls executed along the path (in order)
 	Havoc map[*ssa.BasicBlock]bool // loop headers re-entered through a back-edge: their phis are opaque
+	Vals  map[ssa.Value]int64       // values fixed by the abstract class under evaluation (shared, read-only)
 }
 
 func (ps *pathState) clone() *pathState {
@@ -17,6 +18,7 @@ func (ps *pathState) clone() *pathState {
 	for k, v := range ps.Cells {
 		n.Cells[k] = v
 	}
+	n.Vals = ps.Vals
 	n.Path = append([]*ssa.BasicBlock(nil), ps.Path...)
 	n.Calls = append([]ssa.CallInstruction(nil), ps.Calls...)
 	if len(ps.Havoc) > 0 {
